@@ -51,13 +51,20 @@ class OptInterp(ObjInterp):
         self.triv = {}
 
     def is_own_fn(self, f):
-        return f.get('rec') == OPT
+        if f.get('rec') == OPT:
+            return True
+        # free helpers of the library that take Optionals (e.g. a both_engaged(lhs, rhs) predicate) are inlined as well
+        return not f.get('rec') and f.get('q', '').startswith('rkcommon::utility::') and \
+            any(is_opt_type(p['ct'])[0] for p in f.get('params', []))
 
     def local_init_state(self):
         return 'EU'
 
     def looks_own(self, sd):
-        return sd.get('rec') == OPT
+        if sd.get('rec') == OPT:
+            return True
+        f = self.tu.functions.get(sd.get('def') or sd.get('d'))
+        return f is not None and self.is_own_fn(f)
 
     # ---- expression evaluation
     def field_obj(self, e, fr, name):
@@ -139,7 +146,7 @@ class OptInterp(ObjInterp):
         cv = tu.sd(e).get('cv')
         if cv is not None and k not in ('CXXMemberCallExpr', 'CXXOperatorCallExpr', 'CallExpr'):
             return cv != '0'
-        if k in ('CXXMemberCallExpr', 'CXXOperatorCallExpr'):
+        if k in ('CXXMemberCallExpr', 'CXXOperatorCallExpr', 'CallExpr'):
             vals = self.call_value(e, st, fr)
             if vals and all(isinstance(v, bool) for v in vals) and len(set(vals)) == 1:
                 return vals[0]
@@ -230,6 +237,11 @@ class OptInterp(ObjInterp):
                     and 'noexcept' not in tu.sd(init).get('fty', ''):
                 # the payload constructor may throw: the function is left with the state *before* the construction
                 self.report('exc-state', 'the payload constructor throws', n, fr, st)
+            if thaw(st).get('@rhs') == 'DD' and cand == 'this' and init is not None and not self.triv.get(cand) \
+                    and any(self.from_entry_ref(a, fr) for a in tu.kids(init)):
+                self.report('alias-use-after-destroy', 'the new payload is constructed from the assignment\'s argument after the old payload '
+                            'was destroyed; the argument is a reference that may refer to the old payload (`o = *o`, `s = s->c_str() + n`): '
+                            'it is read after its referent\'s lifetime ended', n, fr, st)
             if cur[0] == 'L' and not self.triv.get(cand):
                 self.report('construct-over-live', 'placement-new into the storage of `%s` while it still holds a live '
                             'payload (the old payload is never destroyed)' % cand, n, fr, st)
@@ -259,9 +271,40 @@ class OptInterp(ObjInterp):
                         if cur[0] != 'L':
                             self.report('destroy-empty', 'destructor of the payload of `%s` is called while the storage '
                                         'holds no live object (double destruction)' % o, n, fr, st)
-                        return [self.set_obj(st, o, storage='E')]
+                        st2 = self.set_obj(st, o, storage='E')
+                        if o == 'this' and thaw(st2).get('@rhs') == 'AA':
+                            d2 = thaw(st2)
+                            d2['@rhs'] = 'DD'       # the by-reference argument of the assignment may now dangle
+                            st2 = freeze(d2)
+                        return [st2]
                 return [st]
         return None
+
+    def from_entry_ref(self, e, fr, depth=0):
+        """does the expression read (through forwarding parameters of inlined callees) a by-reference parameter of the entry function?"""
+        tu = self.tu
+        if e is None or depth > 12:
+            return False
+        for x in tu.walk(e):
+            if x.get('kind') != 'DeclRefExpr':
+                continue
+            d = x.get('referencedDecl', {}).get('id')
+            ps = fr.fn.get('params', [])
+            idx = [i for i, p in enumerate(ps) if p['id'] == d]
+            if idx:
+                if fr.parent is None:
+                    if ps[idx[0]]['ct'].rstrip().endswith('&') and not is_opt_type(ps[idx[0]]['ct'])[0]:
+                        return True
+                elif fr.call is not None:
+                    args = tu.call_parts(fr.call)[2]
+                    if idx[0] < len(args) and self.from_entry_ref(args[idx[0]], fr.parent, depth + 1):
+                        return True
+                continue
+            vd = tu.node(d)
+            if vd is not None and vd.get('kind') == 'VarDecl' and vd.get('type', {}).get('qualType', '').rstrip().endswith('&') and tu.kids(vd):
+                if self.from_entry_ref(tu.kids(vd)[-1], fr, depth + 1):     # a local reference bound to the argument
+                    return True
+        return False
 
     def after_call(self, n, callee, env, st, rv, fr):
         tu = self.tu
@@ -353,6 +396,10 @@ def check_optional(ctx, tu):
                 objs[nm] = ['EF', 'LT']
                 r = tu.records_by_type.get(t)
                 triv[nm] = bool(r and r.get('targs') and r['targs'][0].get('trivial_dtor'))
+        if f.get('rec') and f['q'].endswith('::operator=') and len(f['params']) == 1 and not is_opt_type(f['params'][0]['ct'])[0] \
+                and f['params'][0]['ct'].rstrip().endswith('&'):
+            # value assignment from a reference: the argument may refer to (part of) the payload this Optional holds (`o = *o`)
+            objs['@rhs'] = ['AA']
         it.triv = triv
         it.memo = {}  # summaries depend on the trivial-destructor table of the current entry
         names = sorted(objs)
@@ -508,7 +555,32 @@ class AnyInterp(ObjInterp):
             name = sd.get('q', '').split('::')[-1]
             if obj is not None and name in ('get', 'operator bool'):
                 return self.holder_obj(obj, fr)
+        if e.get('kind') == 'DeclRefExpr':
+            # a local raw pointer initialised once from X.holder.get() stands for that holder pointer
+            d = tu.node(e.get('referencedDecl', {}).get('id'))
+            if d is not None and d.get('kind') == 'VarDecl' and tu.kids(d) and d.get('type', {}).get('qualType', '').rstrip().endswith('*') \
+                    and d.get('id') not in self._reassigned(d):
+                return self.ptr_obj(tu.kids(d)[-1], fr)
         return None
+
+    def _reassigned(self, d):
+        tu = self.tu
+        fn = tu.enclosing_fn(d)
+        key = fn['id'] if fn else None
+        cache = self.__dict__.setdefault('_reassign_cache', {})
+        if key not in cache:
+            out = set()
+            for x in tu.walk(fn) if fn else ():
+                if x.get('kind') in ('BinaryOperator', 'CompoundAssignOperator') and x.get('opcode', '').endswith('=') and x.get('opcode') not in ('==', '!=', '<=', '>='):
+                    r = tu.ref_decl(tu.kids(x)[0])
+                    if r:
+                        out.add(r)
+                if x.get('kind') == 'UnaryOperator' and x.get('opcode') in ('++', '--', '&'):
+                    r = tu.ref_decl(tu.kids(x)[0])
+                    if r:
+                        out.add(r)
+            cache[key] = out
+        return cache[key]
 
     def is_null(self, e):
         e = self.tu.strip(e, casts=True)
@@ -567,7 +639,7 @@ class AnyInterp(ObjInterp):
 
     def aval(self, e, st, fr):
         ct = self.tu.sd(self.tu.strip(e)).get('ct', '') if e is not None else ''
-        if ct.endswith('*') or 'unique_ptr' in ct:
+        if ct.endswith('*') or 'unique_ptr' in ct or 'shared_ptr' in ct:
             return self.holder_value(e, st, fr)
         return self.eval_bool(e, st, fr)
 
@@ -665,8 +737,19 @@ class AnyInterp(ObjInterp):
                     y = self.ptr_obj(a, fr)
                     if y is not None and thaw(st).get(y) != 'V':
                         self.nullable_calls.setdefault((sd.get('q'), idx), (n, fr.fn, y))
+            if obj is not None and tu.strip(obj, casts=True).get('kind') == 'DeclRefExpr':
+                o2 = self.ptr_obj(obj, fr)          # call through a local alias of the raw holder pointer
+                if o2 is not None and thaw(st).get(o2) != 'V':
+                    self.report('null-deref', 'holder pointer of `%s` (held in local `%s`) is dereferenced on a path where `%s` may be empty '
+                                '(no validity test dominates the access)' % (o2, tu.show(obj), o2), n, fr, st)
             if obj is not None:
                 o = self.holder_obj(obj, fr)
+                if o is not None and name == 'swap' and len(args) == 1:
+                    other = self.holder_obj(args[0], fr)
+                    d = thaw(st)
+                    if other is not None and other in d and o in d:
+                        d[o], d[other] = d[other], d[o]
+                        return [freeze(d)]
                 if o is not None and name in ('reset', 'release'):
                     d = thaw(st)
                     args = [a for a in args if a.get('kind') != 'CXXDefaultArgExpr']
@@ -693,7 +776,7 @@ def check_any(ctx, tu):
     if rec is None:
         ctx.broken('R-C09-3: record %s not found' % ANY)
         return
-    holders = [f for f in rec['fields'] if 'unique_ptr' in f['ct'] or f['ct'].endswith('*')]
+    holders = [f for f in rec['fields'] if 'unique_ptr' in f['ct'] or 'shared_ptr' in f['ct'] or f['ct'].endswith('*')]
     if len(holders) != 1:
         ctx.broken('R-C09-3: cannot identify the holder member of %s' % ANY)
         return
@@ -702,6 +785,11 @@ def check_any(ctx, tu):
     n3 = 0
     for f in tu.functions.values():
         if f['dep'] or f.get('rec') != ANY or tu.cfg(f) is None:
+            continue
+        if f.get('access') in ('private', 'protected'):
+            # a non-public helper is analysed inlined into (and under the preconditions of) the public members that call it
+            ctx.ok(R3, '%s %s' % (f['q'].replace('rkcommon::utility::', ''), f['fty']), 'non-public helper: analysed inlined into its public callers',
+                   tu.fn_loc(f), nontrivial=False)
             continue
         env = {'this': 'this'}
         objs = {'this': ['U'] if f.get('ctor') else ['V', 'N']}
@@ -750,7 +838,9 @@ def check_any(ctx, tu):
     # R-C09-4 structural part: the copy constructor's holder initialiser must be clone() of the source's holder
     n4 = 0
     for f in tu.functions.values():
-        if f.get('rec') == ANY and f.get('ctor') == 'copy' and tu.cfg(f) is not None:
+        is_copy_assign = f.get('rec') == ANY and f['q'].endswith('::operator=') and len(f['params']) == 1 and \
+            f['params'][0]['ct'].replace(' ', '') in ('const' + ANY + '&', ANY + 'const&')
+        if f.get('rec') == ANY and (f.get('ctor') == 'copy' or is_copy_assign) and tu.cfg(f) is not None:
             g = tu.cfg(f)
             clones = shares = 0
             stmts = list(g.stmts())
@@ -759,7 +849,7 @@ def check_any(ctx, tu):
             while work:      # follow calls to other members of Any (helpers such as cloneValue())
                 cur = work.pop()
                 for b, i, n in tu.cfg(cur).stmts():
-                    if n.get('kind') == 'CXXMemberCallExpr' and tu.sd(n).get('rec') == ANY:
+                    if n.get('kind') in ('CXXMemberCallExpr', 'CXXConstructExpr', 'CXXTemporaryObjectExpr') and tu.sd(n).get('rec') == ANY:
                         cf = tu.callee_fn(n)
                         if cf is not None and cf['id'] not in seen_fn and tu.cfg(cf) is not None:
                             seen_fn.add(cf['id'])
@@ -778,11 +868,13 @@ def check_any(ctx, tu):
                     if par is not None and par.get('kind') in ('CXXConstructExpr', 'ConditionalOperator'):
                         shares += 1
             n4 += 1
-            inst = 'Any::Any(const Any&)'
+            inst = 'Any::operator=(const Any&)' if is_copy_assign else 'Any::Any(const Any&)'
             if clones < 1 or shares:
-                ctx.violation(R4, inst, 'copy constructor does not obtain its holder from clone() of the source '
-                              '(clone calls: %d, raw pointer hand-overs: %d): copies would share state' % (clones, shares),
-                              tu.fn_loc(f), key='%s|%s|Any::Any(const Any&)|no-clone' % (R4, tu.fn_file(f)))
+                ctx.violation(R4, inst, '%s does not obtain its holder from clone() of the source '
+                              '(clone calls: %d, raw pointer hand-overs: %d): the copies share one holder, so a write through a reference '
+                              'obtained from one of them (get<T>()) is seen by the other' % (
+                                  'copy assignment' if is_copy_assign else 'copy constructor', clones, shares),
+                              tu.fn_loc(f), key='%s|%s|%s|no-clone' % (R4, tu.fn_file(f), inst))
             else:
                 ctx.ok(R4, inst, 'holder initialised from source->clone()', tu.fn_loc(f))
     # every handle<T>::clone returns a new handle<T> built from its value
@@ -1090,6 +1182,14 @@ def check_storage_bytes(ctx, tu):
         if r.get('tmpl') == OPT and r.get('targs') and r['targs'][0].get('trivially_copyable') is False:
             nontriv[r['id']] = r['targs'][0]['t']
     n = 0
+    # address accessors: members whose only use of the storage is to return its (untyped) address; their call sites are classified instead
+    accessors = set()
+    for f in tu.functions.values():
+        if f['dep'] or f.get('rec') != OPT or f.get('recid') not in nontriv or tu.body(f) is None:
+            continue
+        us = [x for x in tu.walk(tu.node(f['id']) or tu.body(f)) if x.get('kind') == 'MemberExpr' and x.get('name') == storage]
+        if us and all(_classify_storage_use(tu, u, nontriv[f['recid']]) == ('und', 'untyped byte pointer returned') for u in us):
+            accessors.add(f['id'])
     for f in sorted(tu.functions.values(), key=lambda x: (x['q'], x['fty'])):
         if f['dep'] or f.get('rec') != OPT or f.get('recid') not in nontriv or tu.body(f) is None:
             continue
@@ -1103,8 +1203,14 @@ def check_storage_bytes(ctx, tu):
             for x in tu.walk(root):
                 if x.get('kind') == 'MemberExpr' and x.get('name') == storage:
                     uses.append(x)
+                elif x.get('kind') == 'CXXMemberCallExpr' and (tu.sd(x).get('def') or tu.sd(x).get('d')) in accessors:
+                    uses.append(x)
         for u in uses:
             n += 1
+            if f['id'] in accessors and u.get('kind') == 'MemberExpr':
+                ctx.ok(R, '%s @%s' % (inst, tu.loc(u)), 'address accessor: returns the storage address, every call site is classified', tu.loc(u),
+                       nontrivial=False)
+                continue
             verdict, why = _classify_storage_use(tu, u, payload)
             if verdict == 'ok':
                 ctx.ok(R, '%s @%s' % (inst, tu.loc(u)), why, tu.loc(u), nontrivial=False)
@@ -1167,8 +1273,10 @@ def _classify_storage_use(tu, u, payload):
             return 'ok', 'sizeof/alignof'
         if k == 'BinaryOperator' and p.get('opcode') == '=':
             return 'bad', 'assigned as bytes'
-        if k in ('ReturnStmt', 'VarDecl'):
-            return 'und', 'untyped byte pointer stored or returned'
+        if k == 'ReturnStmt':
+            return 'und', 'untyped byte pointer returned'
+        if k == 'VarDecl':
+            return 'und', 'untyped byte pointer stored in a local'
         if k in ('CompoundStmt', 'IfStmt', 'ForStmt', 'WhileStmt'):
             return 'ok', 'value unused'
         return 'und', 'consumer %s' % k
